@@ -35,7 +35,10 @@ def main():
         report['repo_tests_tail'] = tail
 
         def run_demo(tree):
-            proc = subprocess.run(['/venv/bin/python', demo], cwd=tree,
+            # the script's own directory comes first on sys.path: run a copy inside the tree
+            local = os.path.join(tree, 'demo_seed.py')
+            shutil.copy(demo, local)
+            proc = subprocess.run(['/venv/bin/python', local], cwd=tree,
                                   env=dict(os.environ, PYTHONPATH=tree), stdout=subprocess.PIPE,
                                   stderr=subprocess.STDOUT, timeout=600)
             return proc.returncode, proc.stdout.decode(errors='replace')[-600:]
